@@ -274,6 +274,7 @@ typedef struct ep
     int cbmode;         /* 0 none, 1 strict (return alert), 2 permissive (return 0) */
     int cbcalls;
     int cbalert;
+    uint32_t outd, dlvd; long outn, dlvn;   /* running digests: every byte emitted / delivered to the application */
     int tam_msg, tam_mode, tam_off, tam_val, tam_slot, tam_done;   /* armed one-shot tamper of an outgoing handshake message */
     int autoflush;
     sb_t sub;           /* internal events during the current command */
@@ -292,6 +293,7 @@ typedef struct ep
 #define MAXEP 64
 static ep_t g_eps[MAXEP];
 static int g_recid = 0;
+static unsigned long long g_chunk_rng = 88172645463325252ULL;
 static ep_t *g_cur_cb_ep; /* endpoint whose API call is in progress (for cert callback) */
 
 static ep_t *ep_find(const char *name)
@@ -660,6 +662,7 @@ static int ep_flush_ex(ep_t *e, int maxbytes, int timeout)
         }
         if (len <= 0) break;
         if (maxbytes > 0 && len > maxbytes) len = maxbytes;
+        e->outd = fnv(e->outd ? e->outd : 2166136261u, buf, len); e->outn += len;
         /* split into records */
         {
             int off = 0, hl = rec_hdrlen(e);
@@ -740,6 +743,7 @@ static void note_delivery(ep_t *e, unsigned char *pt, uint32 len)
 {
     ep_t *p = e->peer;
     int ok = 0;
+    e->dlvd = fnv(e->dlvd ? e->dlvd : 2166136261u, pt, (int) len); e->dlvn += len;
     if (p && !e->dtls)
     {
         int isearly = e->server && e->ssl && e->ssl->hsState != SSL_HS_DONE;   /* only a client sends early data */
@@ -1348,12 +1352,14 @@ static void do_deliver(ep_t *src, int count, int chunk)
         rec_free(&r);
     }
     ep_call_begin(dst);
-    if (chunk > 0 && !dst->dtls)
+    if (chunk != 0 && !dst->dtls)
     {
         int off = 0;
         while (off < total)
         {
-            int n = total - off < chunk ? total - off : chunk;
+            /* chunk < 0: pieces of pseudo-random size in 1..-chunk (own generator: the library's random source is not touched) */
+            int want = chunk > 0 ? chunk : 1 + (int) ((g_chunk_rng = g_chunk_rng * 6364136223846793005ULL + 1442695040888963407ULL) >> 33) % (-chunk);
+            int n = total - off < want ? total - off : want;
             ep_feed(dst, buf + off, n);
             off += n;
             if (dst->lastrc < 0) break;
@@ -1807,6 +1813,7 @@ static void cmd_state(char **tok)
     {
         sb_printf(&g_out, ",\"grp\":%d,\"sig13\":%d", USING_TLS_1_3(e->ssl) ? (int) e->ssl->tls13NegotiatedGroup : 0, (int) e->ssl->sec.tls13CvSigAlg);
     }
+    sb_printf(&g_out, ",\"outd\":\"%08x\",\"outn\":%ld,\"dlvd\":\"%08x\",\"dlvn\":%ld", e->outd, e->outn, e->dlvd, e->dlvn);
     sb_printf(&g_out, ",\"peer\":\"%s\"", e->peer ? e->peer->name : "-");
     emit_end(&g_out);
 }
@@ -2043,6 +2050,30 @@ static void run_line(char *line)
         emit_begin(&g_out, "tamper", e);
         sb_printf(&g_out, ",\"msg\":%d,\"mode\":%d", e->tam_msg, e->tam_mode);
         emit_end(&g_out);
+    }
+    else if (!strcmp(tok[0], "cpump"))
+    {
+        /* cpump <a> <b> [chunk=k] [sendmax=m] [max=steps]: the same traffic as pump, but each endpoint's output is
+           drained by partial sends of at most m bytes and everything in flight is handed to the receiver in one
+           go, split into receive calls of k bytes (0: all at once) - TLS only */
+        ep_t *pa = ep_get(tok[1]), *pb = ep_get(tok[2]);
+        int chunk = opt_int(tok, ntok, "chunk", 0), sendmax = opt_int(tok, ntok, "sendmax", 0), maxsteps = opt_int(tok, ntok, "max", 200);
+        if (opt_get(tok, ntok, "cseed")) g_chunk_rng = 88172645463325252ULL + (unsigned long long) opt_int(tok, ntok, "cseed", 0) * 1000003ULL;
+        int steps = 0, progress = 1;
+        ep_t *pair[2];
+        pair[0] = pa; pair[1] = pb;
+        while (progress && steps < maxsteps)
+        {
+            int k;
+            progress = 0;
+            for (k = 0; k < 2; k++)
+            {
+                ep_t *e = pair[k];
+                int guard = 0;
+                while (e->ssl && e->ssl->outlen > 0 && guard++ < 100000) { ep_call_begin(e); ep_flush(e, sendmax); progress = 1; }
+                if (e->qn > 0) { do_deliver(e, e->qn, chunk); steps++; progress = 1; }
+            }
+        }
     }
     else if (!strcmp(tok[0], "heal"))
     {
